@@ -42,7 +42,7 @@ type state struct {
 
 // front-end sets. C01 names exactly these five (whole-buffer calls).
 var setC01 = [][2]string{{"oj.Parse", ""}, {"oj.ParseReader", "whole"}, {"oj.Validate1", ""}, {"oj.Tokenize1", ""}, {"gen.Parse", ""},
-	{"oj.Unmarshal", ""}, {"oj.ParseString", ""}}
+	{"oj.Unmarshal", ""}, {"oj.ParseString", ""}, {"oj.Parse+ncm", ""}, {"oj.Parser.Parse+ncm", ""}}
 
 // C09 adds the chunked reader variants: position must not depend on chunking.
 var setC09 = [][2]string{{"oj.Parse", ""}, {"oj.ParseReader", "whole"}, {"oj.Validate1", ""}, {"oj.Tokenize1", ""}, {"gen.Parse", ""},
@@ -52,7 +52,9 @@ var setC09 = [][2]string{{"oj.Parse", ""}, {"oj.ParseReader", "whole"}, {"oj.Val
 	// readers that hand over their last bytes together with io.EOF (iotest.DataErrReader) and that return half of what is asked for
 	{"oj.ParseReader", "dataerr"}, {"oj.ValidateReader1", "dataerr"}, {"oj.TokenizeLoad1", "dataerr"}, {"gen.ParseReader", "dataerr"},
 	{"oj.ParseReader", "half"}, {"oj.ValidateReader1", "half"}, {"oj.TokenizeLoad1", "half"}, {"gen.ParseReader", "half"},
-	{"oj.ParseReader", "dataerr:1"}, {"oj.ValidateReader1", "dataerr:1"}, {"oj.TokenizeLoad1", "dataerr:1"}, {"gen.ParseReader", "dataerr:1"}}
+	{"oj.ParseReader", "dataerr:1"}, {"oj.ValidateReader1", "dataerr:1"}, {"oj.TokenizeLoad1", "dataerr:1"}, {"gen.ParseReader", "dataerr:1"},
+	// an option argument (number conversion method) must change neither the accepted language nor a position
+	{"oj.Parse+ncm", ""}, {"oj.Parser.Parse+ncm", ""}, {"oj.ParseReader+ncm", "whole"}, {"oj.ParseReader+ncm", "1"}, {"oj.Load+ncm", "3"}}
 
 // C09 on streams of documents (multi-document mode): callback and non-OnlyOne variants, whole and chunked.
 var setC09m = [][2]string{{"oj.Parse+cb", ""}, {"gen.Parse+cb", ""}, {"oj.Validate", ""}, {"oj.Tokenize", ""},
